@@ -211,7 +211,7 @@ def _rod_scene(kind, seed):
 
 
 def _hand_solution(system, n, T, seed):
-    """generic smooth rows: every coordinate moves, quaternions stay (nearly) unit for rigid bodies"""
+    """generic smooth rows: every coordinate moves; rigid-body quaternions have lengths 1, 1.7, 0.6 in turn"""
     from cardillo.solver import Solution
 
     t = T0 + (np.linspace(0.0, T, n) if n > 1 else np.zeros(1))
@@ -230,7 +230,9 @@ def _hand_solution(system, n, T, seed):
         if getattr(c, "nq", 0) == 7 and hasattr(c, "qDOF") and c.__class__.__name__ != "CosseratRod" and not hasattr(c, "nelement"):
             for k in range(n):
                 Pq = q[k, c.qDOF[3:]]
-                q[k, c.qDOF[3:]] = Pq / np.linalg.norm(Pq)
+                # every third frame unit, the others of length 1.7 / 0.6: a stored solution may hold non-unit quaternions (re-sampled or
+                # hand-built solutions); the exported orientation data follow the library's any-length convention (seeded C29-j)
+                q[k, c.qDOF[3:]] = Pq / np.linalg.norm(Pq) * (1.0, 1.7, 0.6)[k % 3]
     kw = {}
     if system.nla_N:
         kw["P_N"] = np.array([[0.5 + 0.1 * k + 0.01 * j for j in range(system.nla_N)] for k in range(n)])
